@@ -615,6 +615,7 @@ func (hp *HTTPProxy) directLocalhost(fn ProxyFunc) ProxyFunc {
 
 func (hp *HTTPProxy) isLocalhost(host string) bool {
 	host = strings.ToLower(host)
+	host = strings.TrimSuffix(host, ".")
 
 	if slices.Contains(hp.localhost, host) {
 		return true
